@@ -59,6 +59,8 @@ enum PKind {
     K_ONCE,
     K_USER,
     K_SPIN,
+    K_MEMR,
+    K_MEMW,
 };
 
 struct SimThread {
@@ -85,6 +87,7 @@ struct SimThread {
     int join_target;
     uint64_t stall_until;
     int exit_rounds;
+    int atomic_depth;    // >0: harness bookkeeping section, never preempted
 };
 
 static SimThread g_thr[MAXT];
@@ -565,6 +568,7 @@ static void point(SimThread* me, int kind, const void* addr, uintptr_t pc)
         check_caps();
         release_stalls();
     }
+    if (me->atomic_depth > 0) return;    // harness bookkeeping: observed, never preempted
 
     bool want = false;
     bool forced_spin = false;
@@ -695,7 +699,7 @@ static void point(SimThread* me, int kind, const void* addr, uintptr_t pc)
             {
                 ConflictEnt* e = &g_conf[((uintptr_t) addr >> 3) & 4095];
                 racing = (e->addr == addr && e->tid != me->id);
-                if (kind != K_LOAD)
+                if (kind != K_LOAD && kind != K_MEMR)
                 {
                     e->addr = addr;
                     e->tid = me->id;
@@ -854,7 +858,8 @@ SIM_EXPORT int sim_count_runnable(void) { return count_runnable(); }
 SIM_EXPORT void sim_dump_trace(int fd, int last_n)
 {
     static const char* kn[] = {"load", "store", "rmw", "cas", "fence", "lock", "unlock", "trylock",
-        "cwait", "csignal", "yield", "sleep", "clock", "create", "exit", "join", "once", "user", "spin"};
+        "cwait", "csignal", "yield", "sleep", "clock", "create", "exit", "join", "once", "user", "spin", "mem-read",
+        "mem-write"};
     if (last_n > TRACE_N) last_n = TRACE_N;
     uint64_t from = g_step > (uint64_t) last_n ? g_step - (uint64_t) last_n + 1 : 1;
     char buf[160];
@@ -863,7 +868,7 @@ SIM_EXPORT void sim_dump_trace(int fd, int last_n)
         TraceEnt& te = g_trace[s & (TRACE_N - 1)];
         if (te.step != s) continue;
         int n = snprintf(buf, sizeof(buf), "%llu T%u %s addr=%p pc=%p\n", (unsigned long long) te.step,
-            te.tid, te.kind < 19 ? kn[te.kind] : "?", (void*) te.addr, (void*) te.pc);
+            te.tid, te.kind < 21 ? kn[te.kind] : "?", (void*) te.addr, (void*) te.pc);
         if (write(fd, buf, (size_t) n) < 0) break;
     }
 }
@@ -1043,6 +1048,47 @@ SIM_EXPORT a128 __tsan_atomic128_compare_exchange_val(volatile a128* a, a128 c, 
     bool ok = cas16((void*) a, &exp, v);
     if (me) after_op(me, ok);
     return exp;
+}
+
+// ------------------------------------------------------------------------------------------------
+// plain memory accesses: only translation units compiled with full TSan instrumentation (selected
+// header-only workloads) call these. They are schedule points like atomic loads/stores, which makes
+// data-race windows in header-only code reachable; they never count for spin detection.
+static inline void mem_point(const void* addr, int kind, uintptr_t pc)
+{
+    SimThread* me = SELF();
+    if (!me || me->atomic_depth > 0) return;
+    g_st.mem_points++;
+    point(me, kind, addr, pc);
+}
+#define DEF_MEM(N)                                                                                 \
+    SIM_EXPORT void __tsan_read##N(void* a) { mem_point(a, K_MEMR, PC()); }                         \
+    SIM_EXPORT void __tsan_write##N(void* a) { mem_point(a, K_MEMW, PC()); }                        \
+    SIM_EXPORT void __tsan_unaligned_read##N(void* a) { mem_point(a, K_MEMR, PC()); }               \
+    SIM_EXPORT void __tsan_unaligned_write##N(void* a) { mem_point(a, K_MEMW, PC()); }
+DEF_MEM(1)
+DEF_MEM(2)
+DEF_MEM(4)
+DEF_MEM(8)
+DEF_MEM(16)
+SIM_EXPORT void __tsan_read_range(void* a, unsigned long) { mem_point(a, K_MEMR, PC()); }
+SIM_EXPORT void __tsan_write_range(void* a, unsigned long) { mem_point(a, K_MEMW, PC()); }
+SIM_EXPORT void __tsan_vptr_update(void** a, void*) { mem_point(a, K_MEMW, PC()); }
+SIM_EXPORT void __tsan_vptr_read(void** a) { mem_point(a, K_MEMR, PC()); }
+SIM_EXPORT void __tsan_func_entry(void*) {}
+SIM_EXPORT void __tsan_func_exit(void) {}
+SIM_EXPORT void __tsan_ignore_thread_begin(void) {}
+SIM_EXPORT void __tsan_ignore_thread_end(void) {}
+
+SIM_EXPORT void sim_atomic_begin(void)
+{
+    SimThread* me = SELF();
+    if (me) me->atomic_depth++;
+}
+SIM_EXPORT void sim_atomic_end(void)
+{
+    SimThread* me = SELF();
+    if (me && me->atomic_depth > 0) me->atomic_depth--;
 }
 
 SIM_EXPORT void __tsan_atomic_thread_fence(int)
